@@ -890,7 +890,9 @@ pub fn run(r: &mut Report, replay: Option<&str>) {
             unknown_criteria: false,
         };
         let w = gen::gen_world(&mut crng, &cfg);
+        let nf = r.failures.len();
         check_world(r, &mut d, &w, &format!("random#{i}"));
+        r.minimise_last(nf, &w, &mut |sr, cand| check_world(sr, &mut d, cand, "minimising"));
     }
     r.count_n("driver-requests", d.requests);
 }
